@@ -1150,7 +1150,8 @@ func ruleQueryableDivides(c *Ctx) {
 		if !isSel {
 			return "", false
 		}
-		ix, isIx := unparen(sel.X).(*ast.IndexExpr)
+		// Timeframes[i] directly, or a single-definition local that stands for it
+		ix, isIx := resolveLocal(info, s.Body, sel.X).(*ast.IndexExpr)
 		if !isIx || objKey(info, ix.X) != "utils.Timeframes" {
 			return "", false
 		}
